@@ -11,6 +11,8 @@ empty datagram) in the fixed world of `harness/c05rtp.py`:
 * receiver 1 (audio): PCMU=0; SSRC 4000
 * sender 0: SSRC 5000, RTX SSRC 5001, RTX payload type 101, RTX sequence number 7, history 65530..65535,0..3
 
+`rtpdispatch runo <rtx0> <hex>,…` — the same with the sender's RTX sequence number starting at `rtx0`.
+
 Reply: `ok <trace>;<trace>;…`, one trace per datagram: the effects in program order joined with `+`
 (`-` when nothing happened), in the notation of `World.feed` of the harness.
 
@@ -62,6 +64,11 @@ def world : Transport :=
   { ids := worldIds, router := worldRouter,
     receivers := fun i => if i = 0 then videoReceiver else audioReceiver,
     senders := fun _ => worldSender }
+
+/-- The world with the sender's RTX sequence number starting at `rtx0` (what `random_sequence_number()` returned, or
+where a long history of retransmissions has taken it). -/
+def worldAt (rtx0 : Int) : Transport :=
+  { world with senders := fun _ => { worldSender with rtxSequenceNumber := rtx0 } }
 
 def recvTag (i : Nat) : String := if i = 0 then "v" else "a"
 
@@ -138,6 +145,9 @@ def handleTop : List String → String
   | ["run", ds] => match parseDatagrams? ds with
     | some ds => "ok " ++ ";".intercalate (runWorld world ds [])
     | none => "bad-op"
+  | ["runo", o, ds] => match parseInt? o, parseDatagrams? ds with
+    | some o, some ds => "ok " ++ ";".intercalate (runWorld (worldAt o) ds [])
+    | _, _ => "bad-op"
   | ["demux", d] => match parseHex? d with
     | some d => showDemux (demux true d)
     | none => "bad-op"
